@@ -105,35 +105,51 @@ package buffer
 //@   property C08
 //@   ensures implies(isnil(err), n == len(c))
 
-// ---- slice reads and writes loop over the internal buffer of the reader / writer: assumed ----
+// ---- slice reads and writes: the decode / encode loops over the reader's (writer's) internal
+// ---- buffer are skipped (loopabs), the refill recursion is verified with a measure: every recursive
+// ---- call is on a strictly shorter slice (otherwise an exhausted stream recurses forever) ----
 //@ afunc ReadUint64Slice
-//@   trusted buffer-refill loop not verified: assumed to consume 8 bytes per element or fail
+//@   property C08
+//@   loopabs
+//@   decreases len(c)
 //@   ensures implies(isnil(err), n == 8*len(c))
 
 //@ afunc ReadUint32Slice
-//@   trusted buffer-refill loop not verified: assumed to consume 4 bytes per element or fail
+//@   property C08
+//@   loopabs
+//@   decreases len(c)
 //@   ensures implies(isnil(err), n == 4*len(c))
 
 //@ afunc ReadUint16Slice
-//@   trusted buffer-refill loop not verified: assumed to consume 2 bytes per element or fail
+//@   property C08
+//@   loopabs
+//@   decreases len(c)
 //@   ensures implies(isnil(err), n == 2*len(c))
 
 //@ afunc WriteUint64Slice
-//@   trusted buffer-flush loop not verified: assumed to write 8 bytes per element or fail
+//@   property C08
+//@   loopabs
+//@   decreases len(c)
 //@   gset pending(w) = *
 //@   ensures implies(isnil(err), n == 8*len(c))
 
 //@ afunc WriteUint32Slice
-//@   trusted buffer-flush loop not verified: assumed to write 4 bytes per element or fail
+//@   property C08
+//@   loopabs
+//@   decreases len(c)
 //@   gset pending(w) = *
 //@   ensures implies(isnil(err), n == 4*len(c))
 
 //@ afunc WriteUint16Slice
-//@   trusted buffer-flush loop not verified: assumed to write 2 bytes per element or fail
+//@   property C08
+//@   loopabs
+//@   decreases len(c)
 //@   gset pending(w) = *
 //@   ensures implies(isnil(err), n == 2*len(c))
 
 //@ afunc WriteUint8Slice
-//@   trusted recursive buffer-flush loop not verified: assumed to write 1 byte per element or fail
+//@   property C08
+//@   loopabs
+//@   decreases len(c)
 //@   gset pending(w) = *
 //@   ensures implies(isnil(err), n == len(c))
